@@ -493,6 +493,17 @@ tdigest<T, A> tdigest<T, A>::deserialize(const void* bytes, size_t size, const A
   return tdigest(reverse_merge, k, min, max, std::move(centroids), weight, std::move(buffer));
 }
 
+// the reference implementation stores k and the centroid weights as floating-point numbers;
+// a value that does not fit the integer type (NaN, negative, too large: possible in a corrupted image only)
+// must be rejected before the conversion, which would be undefined behavior
+template<typename I, typename F>
+static inline I tdigest_compat_to_integer(F value) {
+  if (!(value >= 0 && value < std::ldexp(static_cast<F>(1), std::numeric_limits<I>::digits))) {
+    throw std::invalid_argument("Possible corruption: value out of range in the reference implementation format");
+  }
+  return static_cast<I>(value);
+}
+
 // compatibility with the format of the reference implementation
 // default byte order of ByteBuffer is used there, which is big endian
 template<typename T, typename A>
@@ -507,14 +518,14 @@ tdigest<T, A> tdigest<T, A>::deserialize_compat(std::istream& is, const A& alloc
   if (type == COMPAT_DOUBLE) { // compatibility with asBytes()
     const auto min = read_big_endian<double>(is);
     const auto max = read_big_endian<double>(is);
-    const auto k = static_cast<uint16_t>(read_big_endian<double>(is));
+    const auto k = tdigest_compat_to_integer<uint16_t>(read_big_endian<double>(is));
     const auto num_centroids = read_big_endian<uint32_t>(is);
     if (!is.good()) throw std::runtime_error("error reading from std::istream");
     // the array grows as centroids arrive: the count comes from the stream and must not size an allocation
     vector_centroid centroids(allocator);
     uint64_t total_weight = 0;
     for (uint32_t i = 0; i < num_centroids; ++i) {
-      const W weight = static_cast<W>(read_big_endian<double>(is));
+      const W weight = tdigest_compat_to_integer<W>(read_big_endian<double>(is));
       const auto mean = read_big_endian<double>(is);
       if (!is.good()) throw std::runtime_error("error reading from std::istream");
       centroids.push_back(centroid(mean, weight));
@@ -525,7 +536,7 @@ tdigest<T, A> tdigest<T, A>::deserialize_compat(std::istream& is, const A& alloc
   // COMPAT_FLOAT: compatibility with asSmallBytes()
   const auto min = read_big_endian<double>(is); // reference implementation uses doubles for min and max
   const auto max = read_big_endian<double>(is);
-  const auto k = static_cast<uint16_t>(read_big_endian<float>(is));
+  const auto k = tdigest_compat_to_integer<uint16_t>(read_big_endian<float>(is));
   // reference implementation stores capacities of the array of centroids and the buffer as shorts
   // they can be derived from k in the constructor
   read<uint32_t>(is); // unused
@@ -534,7 +545,7 @@ tdigest<T, A> tdigest<T, A>::deserialize_compat(std::istream& is, const A& alloc
   vector_centroid centroids(allocator);
   uint64_t total_weight = 0;
   for (uint16_t i = 0; i < num_centroids; ++i) {
-    const W weight = static_cast<W>(read_big_endian<float>(is));
+    const W weight = tdigest_compat_to_integer<W>(read_big_endian<float>(is));
     const auto mean = read_big_endian<float>(is);
     if (!is.good()) throw std::runtime_error("error reading from std::istream");
     centroids.push_back(centroid(mean, weight));
@@ -565,7 +576,7 @@ tdigest<T, A> tdigest<T, A>::deserialize_compat(const void* bytes, size_t size, 
     max = byteswap(max);
     double k_double;
     ptr += copy_from_mem(ptr, k_double);
-    const uint16_t k = static_cast<uint16_t>(byteswap(k_double));
+    const uint16_t k = tdigest_compat_to_integer<uint16_t>(byteswap(k_double));
     uint32_t num_centroids;
     ptr += copy_from_mem(ptr, num_centroids);
     num_centroids = byteswap(num_centroids);
@@ -579,8 +590,9 @@ tdigest<T, A> tdigest<T, A>::deserialize_compat(const void* bytes, size_t size, 
       double mean;
       ptr += copy_from_mem(ptr, mean);
       mean = byteswap(mean);
-      c = centroid(mean, static_cast<W>(weight));
-      total_weight += static_cast<uint64_t>(weight);
+      const W w = tdigest_compat_to_integer<W>(weight);
+      c = centroid(mean, w);
+      total_weight += w;
     }
     return tdigest(false, k, min, max, std::move(centroids), total_weight, vector_t(allocator));
   }
@@ -594,7 +606,7 @@ tdigest<T, A> tdigest<T, A>::deserialize_compat(const void* bytes, size_t size, 
   max = byteswap(max);
   float k_float;
   ptr += copy_from_mem(ptr, k_float);
-  const uint16_t k = static_cast<uint16_t>(byteswap(k_float));
+  const uint16_t k = tdigest_compat_to_integer<uint16_t>(byteswap(k_float));
   // reference implementation stores capacities of the array of centroids and the buffer as shorts
   // they can be derived from k in the constructor
   ptr += sizeof(uint32_t); // unused
@@ -611,8 +623,9 @@ tdigest<T, A> tdigest<T, A>::deserialize_compat(const void* bytes, size_t size, 
     float mean;
     ptr += copy_from_mem(ptr, mean);
     mean = byteswap(mean);
-    c = centroid(mean, static_cast<W>(weight));
-    total_weight += static_cast<uint64_t>(weight);
+    const W w = tdigest_compat_to_integer<W>(weight);
+    c = centroid(mean, w);
+    total_weight += w;
   }
   return tdigest(false, k, min, max, std::move(centroids), total_weight, vector_t(allocator));
 }
